@@ -28,3 +28,8 @@ package crypto
 //@ func CreateAddress props C17
 //@ nobody
 //@ pure
+
+// Keccak256Hash computes a value; no effect on caller-visible state. ASSUMED (the sponge is outside the modelled subset).
+//@ func Keccak256Hash props C17
+//@ nobody
+//@ pure
